@@ -2,8 +2,8 @@
 
 Every operation of every class is run on generated inputs and its raw result is compared, inside Coq, with the
 executable spec of Model/C02Spec.v applied to the denotation of the operand literal (den_dense / den_sp / den_k /
-den_t / den_sum).  For the kernels with an algorithm model (Model/C02Dense.v, C02Sparse.v, C02Kruskal.v) the model's
-output is compared too.  Mode designations (dims / exclude_dims, any order, |dims| or N multiplicands) are resolved
+den_t / den_sum).  For the kernels with an algorithm model (Model/C02Dense.v, Model/C02Sparse.v) the model's output is
+compared too (raw data / raw weights and factors).  Mode designations (dims / exclude_dims, any order, |dims| or N multiplicands) are resolved
 on the harness side by `designate`, independently of tt_dimscheck."""
 import itertools
 import math
@@ -22,7 +22,7 @@ COQ_TARGETS = ["Props/C02.vo", "Model/C02Harness.vo", "Model/Harness.vo"]
 THEOREM_FILES = ["Props/C02.v"]
 COQ_IMPORTS = ("From Coq Require Import List ZArith Bool Arith QArith Qcanon.\n"
                "From PV Require Import Base.Index Base.Perm Base.Sum Np.Array Model.Sparse Model.Repr Model.Harness "
-               "Model.C02Spec Model.C02Dense Model.C02Harness.\n")
+               "Model.C02Spec Model.C02Dense Model.C02Sparse Model.C02Harness.\n")
 RULE = ("shapes with <= 4 modes / <= 72 entries incl. distinct sizes (2,3,4), singleton modes and 1-way; every non-empty mode "
         "subset under dims (ascending, descending, random order) and exclude_dims, multiplicand lists of length |dims| and N; "
         "operands in dense / sparse / Kruskal / Tucker / sum form built from one random integer array; fill levels on both "
@@ -31,7 +31,22 @@ RULE = ("shapes with <= 4 modes / <= 72 entries incl. distinct sizes (2,3,4), si
 EXPLANATION = ("Correspondence compares pyttb's raw result with spec_op applied to the denotation of the operand literal "
                "(exact integers in Z; the norm in Qc). Theorems in Props/C02.v state impl_op = spec_op for all shapes and "
                "all values of a commutative ring for the kernels listed there.")
-CORRESPONDENCE_ONLY = []
+CORRESPONDENCE_ONLY = [
+    "dense mttkrp branches n = N-1 and middle (algorithm model in Model/C02Dense.v compared with pyttb and with the spec; theorem only for n = 0)",
+    "dense mttkrp with a Kruskal operand (weights absorbed by get_mttkrp_factors), dense mttkrps",
+    "dense ttm list form (sequence of the proved single-mode products), dense ttt, contract, collapse, scale, mask, ttsv",
+    "sparse ttv, ttm, mttkrp, contract, collapse, scale, mask (sparse innerprod and norm are proved)",
+    "Kruskal ttv over several modes (single mode proved), Kruskal mttkrp, innerprod, norm, mask",
+    "Tucker ttv, ttm, mttkrp, innerprod, norm, reconstruct",
+    "sumtensor innerprod, mttkrp, ttv",
+    "mode designation (dims / exclude_dims / multiplicand count): resolved by the harness independently of tt_dimscheck; the "
+    "alignment theorems over the generated tt_dimscheck are C17_dimscheck_dims / C17_alignment / C17_dimscheck_exclude",
+]
+ASSUMPTIONS = [
+    "numpy transpose / F-order reshape / matmul / fancy indexing behave as the tabulate-style definitions of Np/Array.v and Model/C02Dense.v",
+    "floating point: all generated values are small integers, so float64 results are exact; the norm is compared to 1e-9 relative in Qc",
+    "sptensor operands fed to the proved sparse kernels are well formed (distinct in-bounds subscripts), as produced by the generator",
+]
 
 SHAPES_Q = [[3], [1], [2, 3], [3, 2], [1, 3], [3, 3], [2, 3, 4], [4, 3, 2], [2, 1, 3], [2, 2, 2], [3, 2, 1, 4], [2, 3, 2, 2]]
 SHAPES_T = SHAPES_Q + [[4], [4, 2], [3, 1], [3, 4, 2], [3, 3, 3], [1, 1, 2], [2, 3, 4, 3], [4, 3, 3, 2], [2, 2, 2, 2], [1, 2, 3, 4]]
@@ -368,6 +383,9 @@ def coq_check(c, o):
             sd, sv = [dims[j] for j in order], [vs[j] for j in order]
             lit = tgen.gdense(ob["shape"], ob["data"]) if ob["k"] == "dense" else tgen.gdense([], [ob["v"]])
             e += f" && dense_eqb (zimpl_ttv_dense {tgen.gdense(X['shape'], X['data'])} {gnlist(sd)} {gvecs(sv)}) {lit}"
+        if X["rep"] == "k" and len(dims) == 1 and ob["k"] == "ktensor" and obs_ints(ob):
+            e += (f" && k_eqb (zimpl_ttv_k1 {tgen.gktensor(X['weights'], X['factors'])} {dims[0]} {gzlist(vs[0])}) "
+                  f"{tgen.gktensor(ob['weights'], ob['factors'])}")
         return e
     if c.op == "ttm":
         prs = _ttm_pairs(a)
@@ -412,13 +430,25 @@ def coq_check(c, o):
         if ob["k"] != "scalar" or not isinstance(ob["v"], int):
             return "false"
         e = f"(zsp_innerprod {dX} {gden(a['Y'])} {gnlist(shp)} =? {gz(ob['v'])})%Z"
+        Y = a["Y"]
+        reps = (X["rep"], Y["rep"])
+        if reps == ("sparse", "sparse"):
+            e += f" && (zimpl_innerprod_sp_sp {tgen.gsparse(X['shape'], X['subs'], X['vals'])} {tgen.gsparse(Y['shape'], Y['subs'], Y['vals'])} =? {gz(ob['v'])})%Z"
+        if reps in (("sparse", "dense"), ("dense", "sparse")):
+            S, T = (X, Y) if reps[0] == "sparse" else (Y, X)
+            e += f" && (zimpl_innerprod_sp_dense {tgen.gsparse(S['shape'], S['subs'], S['vals'])} {tgen.gdense(T['shape'], T['data'])} =? {gz(ob['v'])})%Z"
         if X["rep"] == "dense" and a["Y"]["rep"] == "dense":
             e += (f" && (zimpl_innerprod_dense {tgen.gdense(X['shape'], X['data'])} "
                   f"{tgen.gdense(a['Y']['shape'], a['Y']['data'])} =? {gz(ob['v'])})%Z")
         return e
     if c.op == "norm":
         q = gq(Fraction(ob["v"]))
-        return f"qclose tol9 (Qcmult {q} {q}) (Q2Qc (inject_Z (zsp_normsq {dX} {gnlist(shp)})))"
+        e = f"qclose tol9 (Qcmult {q} {q}) (Q2Qc (inject_Z (zsp_normsq {dX} {gnlist(shp)})))"
+        if X["rep"] == "sparse":
+            e += f" && qclose tol9 (Qcmult {q} {q}) (Q2Qc (inject_Z (zimpl_normsq_sp {tgen.gsparse(X['shape'], X['subs'], X['vals'])})))"
+        if X["rep"] == "dense":
+            e += f" && qclose tol9 (Qcmult {q} {q}) (Q2Qc (inject_Z (zimpl_normsq_dense {tgen.gdense(X['shape'], X['data'])})))"
+        return e
     if c.op == "collapse":
         dims = list(range(N)) if a["dims"] is None else a["dims"]
         rs = [shp[m] for m in range(N) if m not in dims]
